@@ -311,6 +311,51 @@ fn fd_adapters(ctx: &Ctx, thorough: bool) -> Vec<String> {
                             }
                         })
                     };
+                    // the same with read(2)/write(2) interrupted by a signal before any byte moved:
+                    // every m-th call on a descriptor fails with EINTR (std's exact forms retry,
+                    // the plain forms report it)
+                    let eintr = move |fds: [i32; 2], m: usize| -> Box<dyn FnMut(&crate::interpose::IoReq) -> crate::interpose::IoAnswer> {
+                        let mut calls = [0usize; 2];
+                        Box::new(move |r: &crate::interpose::IoReq| {
+                            let Some(slot) = fds.iter().position(|f| *f == r.fd) else {
+                                return crate::interpose::IoAnswer::Pass;
+                            };
+                            calls[slot] += 1;
+                            if (calls[slot] - 1) % m == 0 {
+                                return crate::interpose::IoAnswer::Err(libc::EINTR);
+                            }
+                            let n = r.count.min(k + 1);
+                            // SAFETY: forwards a shortened request to the kernel
+                            let ret = unsafe { libc::syscall(if r.is_read { libc::SYS_read } else { libc::SYS_write }, r.fd as libc::c_long, r.buf, n) };
+                            if ret < 0 {
+                                crate::interpose::IoAnswer::Err(std::io::Error::last_os_error().raw_os_error().unwrap_or(libc::EIO))
+                            } else {
+                                crate::interpose::IoAnswer::Ret(ret as usize)
+                            }
+                        })
+                    };
+                    for m in [2usize, 3] {
+                        {
+                            let rep = Rep { ctx, adapter: "File(read, interrupted syscalls)" };
+                            let (mut a, mut b) = (file_with(&data, pos), file_with(&data, pos));
+                            let fds = [a.as_raw_fd(), b.as_raw_fd()];
+                            crate::interpose::with_io_handler(eintr(fds, m), || drive_reader(&rep, l, pos, seq, &mut a, &mut b, &|_, _| (String::new(), String::new())));
+                            let (sa, sb) = (file_state(&a), file_state(&b));
+                            if sa != sb {
+                                rep.bad("stream-state", l, pos, seq, seq.len(), format!("{} vs {}", sa, sb));
+                            }
+                        }
+                        {
+                            let rep = Rep { ctx, adapter: "File(write, interrupted syscalls)" };
+                            let (mut a, mut b) = (file_with(&data, pos), file_with(&data, pos));
+                            let fds = [a.as_raw_fd(), b.as_raw_fd()];
+                            crate::interpose::with_io_handler(eintr(fds, m), || drive_writer(&rep, l, pos, seq, &mut a, &mut b, &|_, _| (String::new(), String::new())));
+                            let (sa, sb) = (file_state(&a), file_state(&b));
+                            if sa != sb {
+                                rep.bad("stream-state", l, pos, seq, seq.len(), format!("{} vs {}", sa, sb));
+                            }
+                        }
+                    }
                     {
                         let rep = Rep { ctx, adapter: "File(read, short syscalls)" };
                         let (mut a, mut b) = (file_with(&data, pos), file_with(&data, pos));
@@ -544,7 +589,7 @@ fn fd_adapters(ctx: &Ctx, thorough: bool) -> Vec<String> {
 
 pub fn run(tier: Tier, replay: Option<String>) -> i32 {
     let ctx = crate::new_ctx("C13", tier, "exploration", &replay);
-    ctx.set_rule("for every adapter the crate provides (&[u8], &mut [u8], Vec<u8>, Cursor<&[u8]>, Cursor<Vec<u8>>, Cursor<&mut [u8]>, File, OwnedFd, BorrowedFd, UnixStream, TcpStream, Stdout): every stream length 0..=20, every cursor position 0..=22 plus u64::MAX-1 and u64::MAX, every buffer length 0..=20 (single calls, plain and exact form, two buffer misalignments) and every sequence of 2 and 3 (thorough: also 4) consecutive calls over a boundary set of buffer lengths (fd adapters: lengths 0..=9, 2 calls; also descriptors opened in the wrong access mode and datagram sockets, where an empty call is observable: error kinds and the list of datagrams delivered / left are compared) - each executed on the volatile adapter and on its std::io twin with an ordinary buffer; count / error kind, bytes landed, remaining stream / position / vector contents and canaries around the volatile buffer are compared after every call. One case = one call; non-trivial = non-empty buffer; distinct by construction.");
+    ctx.set_rule("for every adapter the crate provides (&[u8], &mut [u8], Vec<u8>, Cursor<&[u8]>, Cursor<Vec<u8>>, Cursor<&mut [u8]>, File, OwnedFd, BorrowedFd, UnixStream, TcpStream, Stdout): every stream length 0..=20, every cursor position 0..=22 plus u64::MAX-1 and u64::MAX, every buffer length 0..=20 (single calls, plain and exact form, two buffer misalignments) and every sequence of 2 and 3 (thorough: also 4) consecutive calls over a boundary set of buffer lengths (fd adapters: lengths 0..=9, 2 calls; also read(2)/write(2) that move at most k bytes or are interrupted (EINTR) on every 2nd / 3rd call, descriptors opened in the wrong access mode and datagram sockets, where an empty call is observable: error kinds and the list of datagrams delivered / left are compared) - each executed on the volatile adapter and on its std::io twin with an ordinary buffer; count / error kind, bytes landed, remaining stream / position / vector contents and canaries around the volatile buffer are compared after every call. One case = one call; non-trivial = non-empty buffer; distinct by construction.");
     ctx.assume("stream state after a failed exact call is not compared (std leaves it unspecified)");
     if ctx.replay_of.is_some() {
         println!("replay: deterministic enumeration; re-running it");
